@@ -1570,8 +1570,45 @@ def _r07f(chk, repo) -> None:
     chk.floor("R07f.templated_field_slices", 1)
 
 
+def _r07i(chk, repo) -> None:
+    from ..flowutil import sole_expr_origin as _sole
+
+    f = repo.fn(TRACER, "JinjaTracer.trace")
+    cfg = cfg_of(f)
+    n = 0
+    for st in [x for x in walk_local(f) if isinstance(x, ast.Assign)]:
+        pairs = []
+        for t in st.targets:
+            if isinstance(t, ast.Name):
+                pairs.append((t.id, st.value))
+            elif isinstance(t, ast.Tuple) and isinstance(st.value, ast.Tuple) and len(t.elts) == len(st.value.elts):
+                pairs += [(x.id, v) for x, v in zip(t.elts, st.value.elts) if isinstance(x, ast.Name)]
+        for name, v in pairs:
+            if name != "slice_length":
+                continue
+            if not (isinstance(v, ast.Call) and call_name(v) == "len" and len(v.args) == 1):
+                continue  # the length written by the trace itself (int(<group>)) is not measured text
+            n += 1
+            x = v.args[0]
+            if isinstance(x, ast.Name):  # the tail held in a local
+                o = _sole(cfg, x, st)
+                x = o if o is not None else x
+            inner = [c for c in ast.walk(x) if isinstance(c, ast.Call) and not (call_name(c) == "len" or last_attr(c) in ("group", "end", "start", "span"))]
+            ok = isinstance(x, ast.Subscript) and isinstance(x.slice, ast.Slice) and x.slice.upper is None and x.slice.step is None and isinstance(x.value, ast.Name) and not inner
+            chk.require(
+                ok, "R07i", st,
+                f"JinjaTracer.trace measures the rendered length of a templated section as `{short(v, 70)}`, not as the length of the plain tail of the trace part after its id: "
+                "rendered characters are transformed or dropped before they are counted (e.g. a leading tab stripped), the section is under-counted and every later rendered slice is shifted",
+                detail="trace: rendered length = len(<part>[<after id>:])", construct=f"{TRACER}::JinjaTracer.trace",
+            )
+    chk.count("R07i.measured_lengths", n)
+    chk.floor("R07i.measured_lengths", 1)
+
+
 def run(chk) -> None:
     repo = chk.repo
+    chk.rule("R07i", "the rendered length of a templated section is the length of everything rendered: where JinjaTracer.trace measures it from the trace output it is len(<part>[<k>:]) of the untransformed part (no strip/replace/split between the text and len)")
+    _r07i(chk, repo)
     chk.rule("R07a", "TemplatedFile.__init__ refuses (assert/raise, equality, every element, every path) raw slices that do not tile the stored source from 0 to its length and rendered slices that do not tile the stored rendered text from 0 to its length")
     chk.rule("R07b", "the slice lists and texts of a TemplatedFile are stored only in its constructor and never changed in place (directly, through an alias, or in a callee); no __new__ construction, no subclass constructor that skips the base")
     chk.rule("R07c", "every TemplatedFile construction in the tree is unsliced or passes both lists and a rendered text that is not None, all of one provenance (one slicing call on the source given / one generator item / built locally / copied from one TemplatedFile); variant generator and re-mapper keep trace, text and list together")
@@ -1650,6 +1687,24 @@ _FINAL_FULL = (
 )
 
 VARIANTS: List[Variant] = [
+    Variant(
+        "r07i-leading-tabs-not-counted", TRACER,
+        "                alt_id, slice_length = m_id.group(0), len(p[len(m_id.group(0)) + 1 :])\n",
+        "                alt_id = m_id.group(0)\n                slice_length = len(p[len(alt_id) + 1 :].lstrip(\"\\t\"))\n",
+        "R07i", "JinjaTracer.trace", "seeded C07-10",
+    ),
+    Variant(
+        "r07i-tail-bounded", TRACER,
+        "                alt_id, slice_length = m_id.group(0), len(p[len(m_id.group(0)) + 1 :])\n",
+        "                alt_id, slice_length = m_id.group(0), len(p[len(m_id.group(0)) + 1 : 4096])\n",
+        "R07i", "JinjaTracer.trace", "long rendered values truncated",
+    ),
+    Variant(
+        "quiet-r07i-id-through-a-local", TRACER,
+        "                alt_id, slice_length = m_id.group(0), len(p[len(m_id.group(0)) + 1 :])\n",
+        "                alt_id = m_id.group(0)\n                rendered = p[len(alt_id) + 1 :]\n                slice_length = len(rendered)\n",
+        "QUIET", None, "R07i: id and tail through locals",
+    ),
     Variant(
         "override-tag-changed-after-its-delta-was-taken", JINJA_T,
         "                    tracer_trace.raw_slice_info[\n                        raw_file_slice\n                    ].alternate_code = new_source\n                    override_raw_slices.append(branch)\n                    length_deltas[raw_file_slice.source_idx] = len(new_source) - len(\n                        raw_file_slice.raw\n                    )\n",
